@@ -10,6 +10,7 @@ import SfntV.Proofs.OtlGpos
 import SfntV.Proofs.OtlFeatureList
 import SfntV.Proofs.OtlGdef
 import SfntV.Proofs.OtlGtab
+import SfntV.Proofs.OtlScriptList
 
 namespace SfntV.Props.C08
 open SfntV SfntV.Otl
@@ -444,5 +445,68 @@ theorem C08_gtab_roundtrip (S : Bytes) (hS : S ≠ []) (fl : List FL.Feature) (D
       rw [hs] at hF
       simp at hF
   · rw [h4]; exact hrec
+
+/-! ## Script list (`ScriptListInfo.encode` / `readScriptList`, model of the repaired code)
+
+A Go `ScriptListInfo` maps BCP 47 language tags to feature sets.  The encoder converts every key
+with `bcp47ToOtf` to an OpenType (script, language system) tag pair and the reader converts back with
+`otfToBCP47`; the model and this theorem are on the OpenType side of that conversion, with one
+`SL.Entry` (script tag, language-system tag — empty for the default language system —, required
+feature index, optional feature indices) per map entry.  ASSUMPTION (property C14,
+`C14_tag_roundtrip_partial` in Props/C14.lean): on the tags of the library's tables the two conversion
+functions are mutually inverse, so that distinct map keys give distinct tag pairs
+(`InputOk.distinct`) and the key read back is the key written.  `SL.EntryOk` is the domain: a 4-byte
+script tag, 16-bit indices, no optional feature index 0xFFFF (the reader reads it as 0: a Go-side
+normal form), and a tag pair `otfToBCP47` accepts (`SL.known`, regenerated from the source).
+
+Lists are compared as Go maps: distinct keys, so "the same entries" is the same map. -/
+
+/-- Whenever `encode` returns bytes, `readScriptList` — at any position of a table of `size` bytes that
+holds the written bytes followed by anything — reads back exactly the entries written. -/
+theorem C08_scriptlist_roundtrip (es : List SL.Entry) (h : SL.InputOk es) (b : Bytes)
+    (hb : SL.encode es = .ok b) (tail : Bytes) (size : Nat) (hsize : (b ++ tail).length ≤ size) :
+    ∃ r, SL.readSized size (b ++ tail) = .ok r ∧ ∀ e, e ∈ r ↔ e ∈ es :=
+  SL.roundtrip es h b hb tail size hsize
+
+/-- … and `encode` returns bytes or refuses with a panic (offsets above 0xFFFF, a language tag that is
+not 4 bytes long): never an error value. -/
+theorem C08_scriptlist_encode_total (es : List SL.Entry) :
+    (∃ b, SL.encode es = .ok b) ∨ (∃ s, SL.encode es = .panic s) :=
+  SL.encode_refusal_or_ok es
+
+/-- The script list inside the GSUB/GPOS table: with the header of `C08_gtab_roundtrip`, the reader's
+call `readScriptList` at the script-list offset with the size of the whole table gives the entries
+back. -/
+theorem C08_gtab_scriptlist_roundtrip (es : List SL.Entry) (h : SL.InputOk es) (S F L b : Bytes)
+    (hS : SL.encode es = .ok S) (hF : F ≠ []) (hL : L ≠ [])
+    (hb : Gtab.encode (some S) (some F) (some L) = .ok b) :
+    ∃ r, SL.readSized b.length (b.drop 10) = .ok r ∧ ∀ e, e ∈ r ↔ e ∈ es := by
+  have hSne : S ≠ [] := by
+    intro h0
+    subst h0
+    unfold SL.encode SL.encodePlans at hS
+    split at hS
+    · split at hS
+      · simp only [Outcome.ok.injEq] at hS
+        have := congrArg List.length hS
+        simp [be16] at this
+      · simp at hS
+      · simp at hS
+    · simp at hS
+    · simp at hS
+  obtain ⟨_, h2, _, _⟩ := Gtab.header_roundtrip S F L hSne hF hL b hb
+  rw [h2, List.append_assoc]
+  apply SL.roundtrip es h S hS (F ++ L) b.length
+  have := congrArg List.length h2
+  simp only [List.length_drop, List.length_append] at this ⊢
+  omega
+
+/-! Non-vacuity: `DFLT` with a default language system and `latn` with `TRK ` -/
+example : SL.InputOk [⟨[108, 97, 116, 110], [84, 82, 75, 32], 65535, [1, 2]⟩, ⟨[68, 70, 76, 84], [], 65535, [0]⟩] :=
+  ⟨by decide, by decide⟩
+example : SL.encode [⟨[108, 97, 116, 110], [84, 82, 75, 32], 65535, [1, 2]⟩, ⟨[68, 70, 76, 84], [], 65535, [0]⟩] =
+    .ok ([0, 2, 68, 70, 76, 84, 0, 14, 108, 97, 116, 110, 0, 26,
+          0, 4, 0, 0, 0, 0, 255, 255, 0, 1, 0, 0,
+          0, 0, 0, 1, 84, 82, 75, 32, 0, 10, 0, 0, 255, 255, 0, 2, 0, 1, 0, 2]) := by decide
 
 end SfntV.Props.C08
